@@ -95,20 +95,22 @@ Theorem C19_qids : forall s0 d off cnt es s1 s2 e qw fw s3 s4 qg s5,
 Proof. exact readdir_walk_getattr_agree. Qed.
 Print Assumptions C19_qids.
 
-(** every history of QIDFor calls only extends the tables *)
-Theorem C19_histories_extend : forall h s, minv s -> minv (run_history s h) /\ extends s (run_history s h).
-Proof. exact run_history_inv. Qed.
+(** every history of QIDFor calls, of any length, only extends the tables (so it may stand between the calls above) *)
+Theorem C19_histories_extend : forall h s, extends s (run_history s h).
+Proof. exact run_history_extends. Qed.
 
 (** QIDs, localfs: Readdir, Walk and GetAttr all compute
     info(stat) = (QIDType (ModeFromOS mode), localToQid (dev, ino)); the path is
-    the same on every call, whatever was looked up in between *)
+    the same on every call, whatever was looked up in between (the fallback
+    counter is a uint64 and is modelled with its wrap; the bound keeps it below 2^64) *)
 Theorem C19_qids_local : forall h1 h2 d i r r' t1 n1 t2 n2 t3 n3 t4 n4,
+  N.of_nat (length h1 + length h2) + 2 < 2 ^ 63 ->       (* fewer than 2^63 calls: the uint64 counter nextQid does not wrap *)
   d < two64 -> i < two64 ->
   lrun [] next0 h1 = (t1, n1) -> local_to_qid t1 n1 d i = (r, t2, n2) ->
   lrun t2 n2 h2 = (t3, n3) -> local_to_qid t3 n3 d i = (r', t4, n4) -> r = r'.
 Proof.
-  intros h1 h2 d i r r' t1 n1 t2 n2 t3 n3 t4 n4 Hd Hi R1 L1 R2 L2.
-  now apply (local_to_qid_stable_injective h1 h2 d i d i r r' t1 n1 t2 n2 t3 n3 t4 n4 Hd Hi Hd Hi R1 L1 R2 L2).
+  intros h1 h2 d i r r' t1 n1 t2 n2 t3 n3 t4 n4 Hb Hd Hi R1 L1 R2 L2.
+  now apply (local_to_qid_stable_injective h1 h2 d i d i r r' t1 n1 t2 n2 t3 n3 t4 n4 Hb Hd Hi Hd Hi R1 L1 R2 L2).
 Qed.
 Print Assumptions C19_qids_local.
 
